@@ -24,8 +24,25 @@ type Case struct {
 	TopK    int      `json:"topK"`
 }
 
+// genLong draws a string of one of the lengths around which fixed buffers, length bytes and block sizes
+// of hash functions change (user ids and host names have no length limit of their own).
+func genLong(t *rapid.T, label string) string {
+	n := rapid.SampledFrom([]int{31, 32, 33, 63, 64, 65, 127, 128, 129, 200, 230, 241, 242, 255, 256, 257, 300, 511, 512, 1000, 1024, 4096, 65536}).Draw(t, label+"-len")
+	unit := rapid.StringMatching(`[a-z0-9]{1,7}`).Draw(t, label+"-unit")
+	b := make([]byte, 0, n+8)
+	for len(b) < n {
+		b = append(b, unit...)
+	}
+	return string(b[:n])
+}
+
 func genServerName(t *rapid.T, label string) string {
-	switch rapid.IntRange(0, 3).Draw(t, label+"-kind") {
+	switch rapid.IntRange(0, 4).Draw(t, label+"-kind") {
+	case 4:
+		if rapid.IntRange(0, 3).Draw(t, label+"-islong") == 0 {
+			return genLong(t, label+"-long") + fmt.Sprintf(".example:%d", rapid.IntRange(1, 65535).Draw(t, label+"-lp"))
+		}
+		return fmt.Sprintf("10.1.%d.%d:11001", rapid.IntRange(0, 3).Draw(t, label+"-la"), rapid.IntRange(0, 255).Draw(t, label+"-lb"))
 	case 0:
 		return fmt.Sprintf("semadb-%d.semadb.svc.cluster.local:%d", rapid.IntRange(0, 40).Draw(t, label+"-n"), rapid.IntRange(1, 65535).Draw(t, label+"-p"))
 	case 1:
@@ -38,7 +55,9 @@ func genServerName(t *rapid.T, label string) string {
 }
 
 func genKey(t *rapid.T) string {
-	switch rapid.IntRange(0, 3).Draw(t, "key-kind") {
+	switch rapid.IntRange(0, 4).Draw(t, "key-kind") {
+	case 4:
+		return genLong(t, "key-long")
 	case 0:
 		b := rapid.SliceOfN(rapid.Byte(), 16, 16).Draw(t, "uuid-bytes")
 		u, _ := uuid.FromBytes(b)
